@@ -10,7 +10,7 @@ HANDLES = ["A", "B", "Ac", "Bc"]
 # parent: only after these does the parent's own child handle stay attached.
 SAFE_ROOT = {
     "dict": {"setitem_replace", "setitem_new", "delitem", "delitem_missing", "pop", "pop_missing", "pop_missing_default",
-             "update_map", "update_map_replace", "update_pairs", "update_kwargs", "update_map_kwargs", "update_nothing",
+             "update_map", "update_map_replace", "update_pairs", "update_kwargs", "update_map_kwargs", "update_nothing", "update_two_new",
              "setdefault_existing", "setdefault_new", "setdefault_new_nodefault"},
     "list": {"append", "extend", "extend_empty", "extend_tuple", "iadd"},
 }
